@@ -372,9 +372,9 @@ def check_C14(run):
     engine.run_machine(run, spec_init)
     # (c) a request for state k - from outside, from any callback of the root, of a state or of an injected base, alone or while another recipient of the
     # same phase reports a task status or edits the plan - activates the k-th declared state and runs only its callbacks
-    spec_req = MachineSpec("C14", T.p_C14, P_CYCLE.with_(p_pair=0.6, n_tab=(0, 4), w_ops=dict(update=10, react=8, query=1, change=5, immChange=5, succeed=2, fail=1, plan_append=3)),
-                           lambda t, r: [cfgmod.make(n=3, head=1, plans=1, limit=2, cap=2), cfgmod.make(n=4, head=1, manual=1, plans=1, payload=2, limit=2, cap=3, history=1),
-                                         cfgmod.make(n=2, head=0, plans=1, limit=2, cap=2), cfgmod.make(n=5, head=1, inj_state=1, inj_root=1, plans=0, limit=2)],
+    spec_req = MachineSpec("C14", T.p_C14, P_CYCLE.with_(p_pair=0.6, n_tab=(0, 4), w_ops=dict(update=10, react=8, query=1, change=5, immChange=5, succeed=2, fail=1, plan_append=3, replayTransition=4)),
+                           lambda t, r: [cfgmod.make(n=3, head=1, plans=1, limit=2, cap=2, history=1), cfgmod.make(n=4, head=1, manual=1, plans=1, payload=2, limit=2, cap=3, history=1),
+                                         cfgmod.make(n=2, head=0, plans=1, limit=2, cap=2), cfgmod.make(n=5, head=1, inj_state=1, inj_root=1, plans=0, limit=2, history=1)],
                            lambda t: 50 if t == "quick" else 300, lambda ls, c: has(ls, lambda l: l.kind == "did" and l.act[0].startswith("change") and l.res == "ok"), monitor_ids=[])
     engine.run_machine(run, spec_req)
     run.violations.sort(key=lambda v: len(v.get("impl", "")))
@@ -437,8 +437,35 @@ def check_C12(run):
     return info
 
 CHECKS = {"C10": check_C10, "C13": check_C13, "C14": check_C14, "C20": check_C20}
+def check_C16(run):
+    info = machine_check("C16")(run)
+    # the logger attached / detached from inside a callback: a self-checking program (harness/logger_reentry.cpp), both log modes, both header variants,
+    # several toggling rhythms; at every delivery the method record must be the entry just before it exactly when a logger is attached at that moment
+    src = os.path.join(common.HARNESS, "logger_reentry.cpp")
+    jobs = [(lg, ev, v) for lg in ("FFSM2_ENABLE_LOG_INTERFACE", "FFSM2_ENABLE_VERBOSE_DEBUG_LOG") for ev in ((2, 3, 7) if run.tier == "quick" else (1, 2, 3, 4, 5, 7, 11, 13))
+            for v in ("include", "development")]
+    def one(j):
+        lg, ev, v = j
+        b, log = common.build_binary(src, ["-D" + lg, "-DH_EVERY=%d" % ev], v)
+        if b is None: return j, None, log
+        return j, common.run_proc([b], "", timeout=30), ""
+    for j, res, log in common.pmap(one, jobs):
+        lg, ev, v = j; cfgname = "logger_reentry %s toggle-every-%d %s" % (lg, ev, v); run.configs.append(cfgname); run.evaluations += 1
+        script = "g++ -std=c++11 -D%s -DH_EVERY=%d harness/logger_reentry.cpp against the %s header; run it" % (lg, ev, v)
+        if res is None:
+            run.divergences.append(dict(what="the logger re-entry program does not compile against the working tree", reason=log[-2500:], cfg=cfgname, variant=v, script=script)); continue
+        rc, out, err = res
+        if rc != 0 or not out.startswith("OK "):
+            run.violations.append(dict(reason="logger attached / detached from inside a callback: " + (out.strip().split("\n")[0] if out.strip() else "exit status %s %s" % (rc, err[-300:])),
+                                       script=script, cfg=cfgname, variant=v, impl=out[-3000:], monitor=False))
+        else:
+            run.traces_validated += 1; run.distinct.add(("reentry", lg, ev, v)); run.dist["reentry-run"] += 1
+    info["rule"] += "; plus a self-checking program in which the logger is attached and detached from inside callbacks (both log modes, several rhythms, both header variants)"
+    return info
+
 for _pid in SPECS: CHECKS[_pid] = machine_check(_pid)
 CHECKS["C12"] = check_C12
+CHECKS["C16"] = check_C16
 
 # ---------------------------------------------------------------------------------------------- C17
 def cfgs_copies(tier, rng):
@@ -519,7 +546,10 @@ def cfgs_san(tier, rng):
            cfgmod.make(n=5, head=0, manual=0, limit=2, cap=1, payload=0, plans=1, serial=1, history=1, log="on", inj_state=1),
            cfgmod.make(n=8, head=1, manual=0, limit=2, cap=2, payload=0, plans=1, serial=1, history=1, log="off"),          # bit sets of exactly one byte
            cfgmod.make(n=16, head=0, manual=1, limit=2, cap=3, payload=2, plans=1, serial=1, history=0, log="off"),
-           cfgmod.make(n=128, head=0, manual=1, limit=1, cap=2, payload=0, plans=0, serial=1, history=0, log="off")]              # the first state count whose serial form needs a second byte
+           cfgmod.make(n=128, head=0, manual=1, limit=1, cap=2, payload=0, plans=0, serial=1, history=0, log="off"),              # the first state count whose serial form needs a second byte
+           cfgmod.make(n=2, head=1, manual=0, limit=2, cap=6, payload=0, plans=1, serial=0, history=1, log="on"),                # payload-free plans with a capacity well above the state count
+           cfgmod.make(n=3, head=1, manual=0, limit=2, cap=2, payload=2, plans=0, serial=1, history=1, log="on"),                # logger without plans: copies and moves must carry the logger pointer
+           cfgmod.make(n=2, head=0, manual=1, limit=2, cap=2, payload=0, plans=0, serial=0, history=0, log="verbose", order=1)]
     if tier != "quick":
         out += [                cfgmod.make(n=9, head=1, manual=1, limit=4, cap=8, payload=5, plans=1, serial=1, history=1, log="on"),
                 cfgmod.make(n=3, head=1, manual=0, limit=8, cap=3, payload=1, plans=1, serial=1, history=1, log="off", inj_root=2, inj_state=2),
@@ -527,7 +557,7 @@ def cfgs_san(tier, rng):
                 cfgmod.make(n=255, head=0, manual=1, limit=2, cap=255, payload=0, plans=1, serial=1, history=1, log="off")]
     return out
 
-P_SAN = P_PLANS.with_(n_ops=(12, 40), w_ops=dict(plan_append=12, plan_appendWith=8, changeWith=4, immChangeWith=4, loadfrom=3, copy=2, second_instance=2, replayTransition=2,
+P_SAN = P_PLANS.with_(n_ops=(12, 40), w_ops=dict(plan_append=12, plan_appendWith=8, changeWith=4, immChangeWith=4, loadfrom=3, copy=4, second_instance=2, replayTransition=2,
                                                  plan_removeAt=3, plan_clear=1, exit_enter=3, attachLogger=1),
                       w_act=dict(plan_append=6, plan_appendWith=5, changeWith=4, succeed=8, fail=3, cancel=3, change=3, plan_removeAt=2), p_logger_at_construct=0.7)
 
@@ -710,12 +740,35 @@ def check_C19(run):
                         cfgs_plans_crossed, lambda t: 15 if t == "quick" else 60,
                         lambda ls, c: has(ls, lambda l: (l.kind == "did" and l.act[0] == "plan.append") or (l.kind == "api" and l.op == "plan.append")), monitor_ids=["C10"])
     engine.run_machine(run, spec2)
+    # ... programs that use serialization (save/load between instances) while plans / history / logging vary, and programs that use transition
+    # history (replayEnter / replayTransition on a second instance) while plans / serialization / logging vary
+    def cfgs_serial_crossed(tier, rng):
+        out = []
+        combos = [(pl, h, lg) for pl in (0, 1) for h in (0, 1) for lg in ("off", "on")]
+        if tier == "quick": combos = [combos[i] for i in (0, 2, 5, 7)]
+        for k, (pl, h, lg) in enumerate(combos):
+            out.append(cfgmod.make(n=[3, 5, 2, 9][k % 4], head=k % 2, manual=(k // 2) % 2, limit=2, cap=2, payload=0, plans=pl, serial=1, history=h, log=lg))
+        return out
+    spec3 = MachineSpec("C19", T.p_all, P_SERIAL.with_(w_ops=dict(plan_append=0, succeed=0, replayTransition=0, attachLogger=0, copy=0), p_logger_at_construct=0.0),
+                        cfgs_serial_crossed, lambda t: 15 if t == "quick" else 60, lambda ls, c: has(ls, lambda l: l.kind == "api" and l.op == "loadfrom"), monitor_ids=["C12"])
+    engine.run_machine(run, spec3)
+    def cfgs_history_crossed(tier, rng):
+        out = []
+        combos = [(pl, sr, lg) for pl in (0, 1) for sr in (0, 1) for lg in ("off", "on")]
+        if tier == "quick": combos = [combos[i] for i in (1, 2, 4, 7)]
+        for k, (pl, sr, lg) in enumerate(combos):
+            out.append(cfgmod.make(n=[3, 4, 2, 5][k % 4], head=(k + 1) % 2, manual=k % 2, limit=2, cap=2, payload=0, plans=pl, serial=sr, history=1, log=lg))
+        return out
+    spec4 = MachineSpec("C19", T.p_all, P_REPL.with_(w_ops=dict(loadfrom=0, attachLogger=0, copy=0, plan_append=0, succeed=0), p_logger_at_construct=0.0),
+                        cfgs_history_crossed, lambda t: 15 if t == "quick" else 60, lambda ls, c: has(ls, lambda l: l.kind == "api" and l.op.startswith("replay")), monitor_ids=["C11"])
+    engine.run_machine(run, spec4)
     run.samples = run.samples[:2] + [dict(compile_job="%s -std=%s -fsyntax-only %s matrix_tu.cpp (%s header)" % (jobs[5][2], jobs[5][1], " ".join(mask_flags(names, jobs[5][0])), jobs[5][5]))]
     return dict(level="other", exhaustive=(tier != "quick"),
                 rule="(1) -fsyntax-only of an API-covering translation unit for switch masks x {C++11,14,17,20} x {g++, clang++} x activation x payload x header variant "
                      "(quick: all 256 masks each with one rotating choice of the other dimensions + FFSM2_ENABLE_ALL; thorough: the complete product, 16384 + 64 compilations); "
                      "(2) tools/join.py on a scratch copy, byte comparison with the shipped header; (3) a feature-neutral scenario built and run under switch masks, digests compared; "
-                     "(4) feature-neutral generated scripts on the machine harness under plans/serialization/history/log/structure-report/debug-type/typeindex combinations, compared with the model",
+                     "(4) feature-neutral generated scripts on the machine harness under plans/serialization/history/log/structure-report/debug-type/typeindex combinations, compared with the model; "
+                     "(5) programs that use one feature (plans; save/load between instances; replay on a second instance) while the other switches vary, compared with the model under the same switches",
                 explanation="Coq part: feature non-interference of logging, plans, serialization and transition history over all histories (Properties_C19.v). 'Every combination compiles' and 'the shipped "
                             "header is the amalgamation' are facts about compilers and files that no model expresses: decided by complete enumeration of the finite configuration space (thorough) and byte comparison. Level 'other'.")
 
